@@ -217,6 +217,10 @@ int main(int argc, char** argv) {
                 std::string lab; is >> lab;
                 const Lattice::Site& st = s.L->getSite(unhexLabel(lab));
                 out << "o ok " << hexLabel(st.Label) << " " << st.OrbitalSize << " " << st.SpinSize << "\n";
+            } else if (cmd == "newlattice") {
+                // a second, unrelated lattice in the same process (the old objects stay alive)
+                s.L = new Lattice;
+                out << "o ok\n";
             } else if (cmd == "stress") {
                 s.stress = true;
                 out << "o ok\n";
@@ -573,6 +577,17 @@ int main(int argc, char** argv) {
                 GreensFunction G24(*s.S, *s.H, s.Ops->getAnnihilationOperator(j), s.Ops->getCreationOperator(l), *s.DM);
                 GreensFunction G14(*s.S, *s.H, s.Ops->getAnnihilationOperator(i), s.Ops->getCreationOperator(l), *s.DM);
                 GreensFunction G23(*s.S, *s.H, s.Ops->getAnnihilationOperator(j), s.Ops->getCreationOperator(k), *s.DM);
+                // "declare everything first": a second vertex object is constructed BEFORE chi and the G's are prepared/computed
+                TwoParticleGF Xe(*s.S, *s.H, s.Ops->getAnnihilationOperator(i), s.Ops->getAnnihilationOperator(j),
+                                 s.Ops->getCreationOperator(k), s.Ops->getCreationOperator(l), *s.DM);
+                GreensFunction E13(*s.S, *s.H, s.Ops->getAnnihilationOperator(i), s.Ops->getCreationOperator(k), *s.DM);
+                GreensFunction E24(*s.S, *s.H, s.Ops->getAnnihilationOperator(j), s.Ops->getCreationOperator(l), *s.DM);
+                GreensFunction E14(*s.S, *s.H, s.Ops->getAnnihilationOperator(i), s.Ops->getCreationOperator(l), *s.DM);
+                GreensFunction E23(*s.S, *s.H, s.Ops->getAnnihilationOperator(j), s.Ops->getCreationOperator(k), *s.DM);
+                Vertex4 Ve(Xe, E13, E24, E14, E23);
+                Xe.prepare(); Xe.compute(); E13.prepare(); E13.compute(); E24.prepare(); E24.compute();
+                E14.prepare(); E14.compute(); E23.prepare(); E23.compute();
+                Ve.compute(N);
                 G13.prepare(); G13.compute(); G24.prepare(); G24.compute(); G14.prepare(); G14.compute(); G23.prepare(); G23.compute();
                 Vertex4 V(X, G13, G24, G14, G23);
                 V.compute(N);
@@ -582,6 +597,8 @@ int main(int argc, char** argv) {
                     out << "o vertex " << i << " " << j << " " << k << " " << l << " " << N << " " << n1 << " " << n2 << " " << n3
                         << " " << cplxStr(V.value(n1, n2, n3)) << " " << cplxStr(V(n1, n2, n3)) << " " << cplxStr(X(n1, n2, n3))
                         << " " << cplxStr(G13(n1)) << " " << cplxStr(G24(n2)) << " " << cplxStr(G14(n1)) << " " << cplxStr(G23(n2)) << "\n";
+                    bool same = Ve(n1, n2, n3) == V(n1, n2, n3) && Ve.value(n1, n2, n3) == V.value(n1, n2, n3);
+                    out << "o idem vertex " << i << " " << j << " " << k << " " << l << " " << n1 << " " << n2 << " " << n3 << " " << int(same) << "\n";
                 }
             } else {
                 out << "o badcmd\n";
